@@ -14,6 +14,8 @@ CONSTANTS
   Funds = 1000
   Fees = {0, 1}
   WithRotate = TRUE
+  LimWhere <- AllLimWhere
+  LimitSets <- NoLimits
   SendFrom <- AllSendFrom
   Depth = 1100
   UsefulPct = 11
